@@ -24,6 +24,7 @@ import AtreeModel.Replay.Common
     NEST kind=<k> first=<d>     the first depth of the nesting walk whose register did not reload; the
                                 model computes the same number from `Slab.vdepth`
     UMI <hex>                   the model of `cbor.Unmarshal` into a `uint64` gives the next OBS line
+    USZ n=<n> size=<k>          `GetUintCBORSize(n)` returned k: must be `headLen n`
     DEC <hex> id=<a>.<i>        the model decoder's outcome is the expected next OBS line
     HDR <hex>                   the three header queries give the expected next OBS line
     CBR <hex>                   the model of the CBOR library's validator (`wfNext`) gives the next OBS line
@@ -644,6 +645,15 @@ def stepLine (s : CodecState) (line : String) (lineNo : Nat) : CodecState :=
     | some bytes => { s with pending := [obsUnmarshal bytes] }
     | none => s.note s!"line {lineNo}: cannot parse UMI line"
   | ["UMI"] => { s with rep := (s.rep.tag "UMI"), pending := [obsUnmarshal []] }
+  | "USZ" :: rest =>
+    -- `GetUintCBORSize(n)` (encode.go, the exported helper of caller-side `ByteSize()`) against the length of the
+    -- head the model writes for `n`
+    let s := { s with rep := { (s.rep.tag "USZ") with ops := s.rep.ops + 1 } }
+    match fnat (fields rest) "n", fnat (fields rest) "size" with
+    | some n, some size =>
+      s.check (headLen n == size) (fun _ =>
+        s!"line {lineNo}: GetUintCBORSize({n}): implementation {size}, the model's head has {headLen n} bytes")
+    | _, _ => s.note s!"line {lineNo}: cannot parse USZ line"
   | "OBS" :: _ =>
     match s.pending with
     | exp :: rest =>
